@@ -162,6 +162,9 @@ def main(ctx):
         ('trustall', emit_cases(ctx, 'known_hosts=None', Focus='"trustall"'),
          200 if quick else None),
     ]
+    tables.append(('cbcert', emit_cases(
+        ctx, 'owner callbacks x CA listed / not listed / revoked x every '
+        'certificate defect', Focus='"cbcert"'), 550 if quick else None))
     tables.append(('sets3', emit_cases(
         ctx, 'sets of 3 matching lines over K1, K2, CA1, other port',
         Focus='"sets"', LineKeys='{"K1", "K2", "CA1"}', SetSize=3),
@@ -186,9 +189,11 @@ def main(ctx):
             ('orRevoked', dict(Focus='"sets"',
                                LineKeys='{"K1", "K2", "CA1"}')),
             ('skipRevokedKey', dict(LineKeys='{"K1", "CA1"}')),
-            ('princIgnored', dict(Focus='"cert"'))]
+            ('princIgnored', dict(Focus='"cert"')),
+            ('cbWaivesCertChecks', dict(Focus='"cbcert"'))]
     if not quick:
-        sens += [('fbIgnoresCA', {}), ('vbInclusive', dict(Focus='"cert"')), ('holdsIgnored', dict(MaxLines=1)),
+        sens += [('fbIgnoresCA', {}), ('cbWaivesWindow', dict(Focus='"cbcert"')),
+                 ('cbKeyForCert', dict(Focus='"cbcert"')), ('vbInclusive', dict(Focus='"cert"')), ('holdsIgnored', dict(MaxLines=1)),
                  ('trustAllSkipsSig', dict(Focus='"trustall"')),
                  ('cbCAForRevoked', dict(Focus='"callbacks"', MaxLines=1)),
                  ('certSigIgnored', dict(Focus='"cert"'))]
